@@ -32,8 +32,8 @@ ZERO = -1e99  # the library represents zero density by -1e100
 def jobs(tier, seed):
     n_jobs = 16 if tier == "quick" else 32
     return [{"name": f"prior-{j}", "seed": seed, "j": j,
-             "n_single": 20 if tier == "quick" else 120,
-             "n_joint": 16 if tier == "quick" else 100,
+             "n_single": 40 if tier == "quick" else 160,
+             "n_joint": 32 if tier == "quick" else 140,
              "n_draws": 1500 if tier == "quick" else 4000} for j in range(n_jobs)]
 
 
